@@ -338,12 +338,13 @@ def arrpoly_fails(case):
         return 'arrpoly-exception: %s' % (type(ex).__name__ + ':' + str(ex)[:100])
     # reading an ARRAY-valued result is repeatable too (entries of y.data are views there, not scalars): no extractor modifies the
     # evaluated polynomial, a second read and the read of one component afterwards give the same numbers
-    for nm, ext, y_ in (('jacobian', lambda y: UTPM.extract_jacobian(y), f(UTPM.init_jacobian(x))),
-                        ('jac_vec', lambda y: UTPM.extract_jac_vec(y), f(UTPM.init_jac_vec(x, v))),
-                        ('hessian', lambda y: UTPM.extract_hessian(N, y), f(UTPM.init_hessian(x))),
-                        ('hess_vec', lambda y: UTPM.extract_hess_vec(N, y), f(UTPM.init_hess_vec(x, v))),
-                        ('tensor', lambda y: UTPM.extract_tensor(N, y), f(UTPM.init_tensor(2, x)))):
+    for nm, ext, mk_ in ((('jacobian', lambda y: UTPM.extract_jacobian(y), lambda: f(UTPM.init_jacobian(x))),
+                         ('jac_vec', lambda y: UTPM.extract_jac_vec(y), lambda: f(UTPM.init_jac_vec(x, v))),
+                         ('hessian', lambda y: UTPM.extract_hessian(N, y), lambda: f(UTPM.init_hessian(x))),
+                         ('hess_vec', lambda y: UTPM.extract_hess_vec(N, y), lambda: f(UTPM.init_hess_vec(x, v))),
+                         ('tensor', lambda y: UTPM.extract_tensor(N, y), lambda: f(UTPM.init_tensor(2, x)))) if case.get('reads', True) else ()):
         try:
+            y_ = mk_()
             before = np.array(y_.data)
             first = np.array(ext(y_))
             second = np.array(ext(y_))
@@ -683,6 +684,7 @@ def run(ctx):
             ctx.report(case, 'failure', f)
     for i in range(60 if ctx.tier == 'quick' else 800):
         case = arrpoly_case(rng, ctx.tier)
+        case['reads'] = (i % 8 == 0)             # the repeated reads of every extractor (second-order seeds: costly) on every 8th case
         ctx.evaluations += 1
         ctx.count('arrpoly', 'rank=%d' % len(case['oshape']))
         h = canon_hash(case)
